@@ -3026,6 +3026,11 @@ class TLSConnection(TLSRecordLayer):
                 "psk_dhe_ke" in settings.psk_modes) or\
                 (psk is None and privateKey) or\
                 (psk is None and privateKey is None and dc_sig_scheme):
+            if not share:
+                for result in self._sendError(
+                        AlertDescription.missing_extension,
+                        "Key exchange requires a key_share extension"):
+                    yield result
             self.ecdhCurve = selected_group
             kex = self._getKEX(selected_group, version)
             if selected_group in GroupName.allKEM:
